@@ -13,7 +13,7 @@ from translate_py import Z, B, S, O, L, D, T
 from vlib import coq_bool_cases
 
 HEADER = ("From Coq Require Import ZArith List Bool.\nFrom Coq Require String.\nImport String.StringSyntax.\n"
-          "From XV Require Import Base.PyLib Gen.PyBcast Gen.PyMisc Gen.PyUnique Gen.PyPackerIdx Gen.PyPureFn.\n"
+          "From XV Require Import Base.PyLib Gen.PyBcast Gen.PyMisc Gen.PyUnique Gen.PyPackerIdx Gen.PyPureFn Gen.PyEditable.\n"
           "Open Scope Z_scope.\n")
 
 
@@ -398,6 +398,44 @@ def case_purefn(rng, u, mod):
     return c
 
 
+def case_editable(rng, u, mod):
+    """EditableModule: the search loop of _get_unique_params_idxs (cached index lists of a real object) and the scatter of
+    setuniqueparams (what the object's parameter slots hold afterwards)"""
+    import xitorch as xt
+    objs = g_aliased(rng, 6)
+
+    def mk(pool):
+        class EM(xt.EditableModule):
+            def run(self):
+                return 0
+
+            def getparamnames(self, methodname, prefix=""):
+                return [prefix + "p%d" % i for i in range(len(objs))]
+        em = EM()
+        for i, d in enumerate(objs):
+            setattr(em, "p%d" % i, pool.get(d))
+        return em
+    if rng.random() < 0.4:
+        def call(pool):
+            em = mk(pool)
+            em._get_unique_params_idxs("run")
+            return (list(em._unique_params_idxs["run"]), [list(x) for x in em._unique_params_maps["run"]])
+        return dict(args=[objs], call=call, term="editable_unique_params_idxs %s" % c_val(objs, L(O)), rtype=T(L(Z), L(L(Z))),
+                    key=("em-idxs", _pattern(objs)))
+    nuniq = len(set(objs))
+    n = nuniq + rng.choice([0, 0, 0, -1, 1])
+    new = [("tensor", 300 + i, True) for i in range(max(0, n))]
+
+    def call2(pool):
+        em = mk(pool)
+        em.getuniqueparams("run")                # fills the per-method caches, as every caller of setuniqueparams does first
+        em.setuniqueparams("run", *[pool.get(d) for d in new])
+        return [getattr(em, "p%d" % i) for i in range(len(objs))]
+    term = "('(idxs_, maps_) <- editable_unique_params_idxs %s ;; editable_setuniqueparams_scatter %d maps_ %s)" % (
+        c_val(objs, L(O)), len(objs), c_val(new, L(O)))
+    return dict(args=[objs, new], call=call2, term=term, rtype=L(O), key=("em-set", _pattern(objs), n - nuniq))
+
+
 FUNCTIONS = {
     "normalize_bcast_dims": ("PyBcast", "xitorch._utils.bcast", lambda r, u, m: case_bcast(r, u, m, "normalize_bcast_dims")),
     "get_bcasted_dims": ("PyBcast", "xitorch._utils.bcast", lambda r, u, m: case_bcast(r, u, m, "get_bcasted_dims")),
@@ -408,6 +446,7 @@ FUNCTIONS = {
     "uniquifier": ("PyUnique", "xitorch._utils.unique", case_uniquifier),
     "packer_unique_idxs": ("PyPackerIdx", "xitorch._core.packer", case_packeridx),
     "purefunction": ("PyPureFn", "xitorch._core.pure_function", case_purefn),
+    "editable_module": ("PyEditable", "xitorch._core.editable_module", case_editable),
 }
 
 
